@@ -10,7 +10,10 @@
    Submit = Transaction.Verify(): accepted iff the recovered key's account address equals the
    `from` field, all 21 address bytes.  One action per call. *)
 EXTENDS Integers, Sequences, FiniteSets, TLC
-CONSTANTS TxKinds,        \* transaction formats with a signature: "v3", "v2" (same rule: verifySignature of either)
+CONSTANTS DTypes,         \* data types of version-3 transactions: "none" (plain transfer), "message", "call", "deploy",
+                          \* "deposit_add", "deposit_withdraw", "patch" -- each with the minimal well-formed data its own checks in
+                          \* Verify() demand; the signature rule is the same for every one of them
+          TxKinds,        \* transaction formats with a signature: "v3", "v2" (same rule: verifySignature of either)
           Keys,           \* key pairs, e.g. {"k1", "k2"}
           Msgs,           \* message hashes (transaction ids), e.g. {"this", "other"}
           VForms, RForms, SForms, Lens,   \* signature treatments (see below)
@@ -60,15 +63,19 @@ Accepts(claimed, ff, m, sg) ==
   /\ ff = "addr"                                 \* ... and the from field is exactly its account address
 
 Rec(op, claimed, ff, m, sg, k, hlen, res, definite) ==
-  [kind |-> "", op |-> op, claimed |-> claimed, ff |-> ff, m |-> m, sig |-> sg, k |-> k, hlen |-> hlen, res |-> res, definite |-> definite]
+  [kind |-> "", dt |-> "none", op |-> op, claimed |-> claimed, ff |-> ff, m |-> m, sig |-> sg, k |-> k, hlen |-> hlen, res |-> res, definite |-> definite]
 NoSig == Sig("", "", "ok", "ok", "ok", 65)
 Init == hist = <<>>
 Can == Len(hist) < MaxOps
 \* a transaction with id m claims sender `claimed` (from field in form ff) and carries signature sg
-Submit(kind, claimed, ff, m, sg) ==
+\* (version 2 has no data types; the full product of signature treatments is enumerated for plain transfers, the
+\* other data types get the untouched signature and every single treatment)
+Submit(kind, dt, claimed, ff, m, sg) ==
+  /\ kind = "v2" => dt = "none"
+  /\ dt # "none" => Treats(sg) <= 1
   /\ hist' = Append(hist, [Rec("submit", claimed, ff, m, sg, "", 32,
                                IF ~Parses(sg) THEN "reject-parse" ELSE IF Accepts(claimed, ff, m, sg) THEN "accept" ELSE "reject",
-                               Definite(sg) \/ ~Accepts(claimed, ff, m, sg)) EXCEPT !.kind = kind])
+                               Definite(sg) \/ ~Accepts(claimed, ff, m, sg)) EXCEPT !.kind = kind, !.dt = dt])
 \* crypto.NewSignature(hash, key) then RecoverPublicKey(hash') and Verify(hash', pub)
 RecoverOp(sg, m, hlen) ==
   /\ Parses(sg) /\ sg.len # 0
@@ -82,7 +89,7 @@ RoundTrip(k, m, fmt) ==
                               IF fmt = "rs" THEN "error" ELSE k, TRUE))       \* res: what Recover yields afterwards
 
 \* (the bound is tested before the arguments are enumerated)
-Next == \/ Can /\ \E kd \in TxKinds, c \in Keys, ff \in FromForms, m \in Msgs, sg \in Sigs : Submit(kd, c, ff, m, sg)
+Next == \/ Can /\ \E kd \in TxKinds, dt \in DTypes, c \in Keys, ff \in FromForms, m \in Msgs, sg \in Sigs : Submit(kd, dt, c, ff, m, sg)
         \/ Can /\ \E sg \in Sigs, m \in Msgs, h \in HashLens : RecoverOp(sg, m, h)
         \/ Can /\ \E sg \in Sigs, m \in Msgs, k \in Keys, h \in HashLens : VerifyOp(sg, m, k, h)
         \/ Can /\ \E k \in Keys, m \in Msgs, f \in {"rsv", "vrs", "rs"} : RoundTrip(k, m, f)
@@ -100,6 +107,11 @@ OnlySender ==
      (hist[i].op = "submit" /\ hist[i].res = "accept") =>
         /\ hist[i].sig.k = hist[i].claimed /\ hist[i].sig.m = hist[i].m /\ hist[i].ff = "addr"
         /\ (Untouched(hist[i].sig) \/ Twin(hist[i].sig) \/ CompFlag(hist[i].sig))
+\* ... for every data type: each one was submitted with a foreign key, over another id, with a near-miss from field and
+\* with every single malformation, and (by OnlySender) none of those rows is predicted "accept"
+EveryTypeGuarded ==
+  \A i \in 1..Len(hist) :
+     (hist[i].op = "submit" /\ (hist[i].sig.k # hist[i].claimed \/ hist[i].sig.m # hist[i].m \/ hist[i].ff # "addr")) => hist[i].res # "accept"
 \* and the genuine signature is always accepted
 SenderAccepted ==
   \A i \in 1..Len(hist) :
